@@ -1262,194 +1262,3 @@ Proof.
   rewrite tok_skipAll_spec. cbn [span]. rewrite delim_sp, Hc. cbn [fst snd lenN].
   rewrite skip_delimiter_1. rewrite classify_bad. cbn [r_code set_code]. eexists. reflexivity.
 Qed.
-
-(* ================================================================== *)
-(* C22: request-line acceptance vs the grammar                          *)
-(* ================================================================== *)
-Lemma list_eqb_eq a b : list_eqb a b = true -> a = b.
-Proof.
-  revert b; induction a as [|x a IH]; intros [|y b]; cbn [list_eqb]; intros H; try discriminate; [reflexivity|].
-  apply andb_prop in H. destruct H as [H1 H2]. apply N.eqb_eq in H1. subst. f_equal. apply IH. exact H2.
-Qed.
-
-Lemma list_eqb_refl a : list_eqb a a = true.
-Proof. induction a as [|x a IH]; cbn [list_eqb]; [reflexivity|]. rewrite N.eqb_refl, IH. reflexivity. Qed.
-
-Lemma tok_skipSuffix_sound suf t t' : tok_skipSuffix suf t = (true, t') -> t = t' ++ suf.
-Proof.
-  unfold tok_skipSuffix. destruct (lenN t <? lenN suf); [intros H; inversion H|].
-  destruct (list_eqb (dropN (lenN t - lenN suf) t) suf) eqn:E; [|intros H; inversion H].
-  intros H; inversion H; subst t'. apply list_eqb_eq in E.
-  pose proof (takeN_dropN (lenN t - lenN suf) t) as G. rewrite E in G. symmetry. exact G.
-Qed.
-
-Lemma tok_skipOneTrailing_sound set t t' :
-  tok_skipOneTrailing set t = (true, t') -> exists c, t = t' ++ [c] /\ set c = true.
-Proof.
-  unfold tok_skipOneTrailing, last_byte. destruct (rev t) as [|c r] eqn:R; [intros H; inversion H|].
-  destruct (set c) eqn:Sc; [|intros H; inversion H]. intros H; inversion H; subst t'.
-  assert (Ht : t = rev r ++ [c]).
-  { rewrite <- (rev_involutive t), R. reflexivity. }
-  exists c. split; [|exact Sc].
-  rewrite Ht at 2. f_equal. rewrite Ht, lenN_app. cbn [lenN].
-  replace (lenN (rev r) + N.succ 0 - 1) with (lenN (rev r)) by lia. apply takeN_app_exact.
-Qed.
-
-Lemma singleton_of_len {A} (l : list A) : l <> [] -> (1 <? lenN l) = false -> exists x, l = [x].
-Proof.
-  destruct l as [|x [|y r]]; intros H1 H2; [congruence|eauto|]. cbn [lenN] in H2. lia.
-Qed.
-
-(* the pieces of the grammar *)
-Definition method_ok (m : bytes) : Prop := m <> [] /\ forallb cs_TCHAR m = true /\ lenN m <= req_max_method.
-Definition delims_ok (relaxed : bool) (ds : bytes) : Prop :=
-  ds <> [] /\ forallb (delim relaxed) ds = true /\ (relaxed = false -> lenN ds = 1).
-Definition crs_ok (relaxed : bool) (crs : bytes) : Prop :=
-  forallb cs_CR crs = true /\ (relaxed = false -> lenN crs = 1).
-Definition target_ok (relaxed : bool) (t : bytes) : Prop :=
-  t <> [] /\ forallb (target_chars relaxed) t = true /\ lenN t <= req_max_uri.
-
-Lemma parse_method_sound relaxed s line s1 t1 :
-  parse_method relaxed s line = (s1, Some t1) ->
-  exists m ds1, line = m ++ ds1 ++ t1 /\ method_ok m /\ delims_ok relaxed ds1 /\
-                s1 = set_method s (method_of relaxed m) /\
-                match t1 with [] => True | y :: _ => delim relaxed y = false end.
-Proof.
-  unfold parse_method.
-  destruct (tok_prefix cs_TCHAR req_max_method line) as [[m x1]|] eqn:P; [|intros H; inversion H].
-  rewrite tok_skipAll_spec.
-  pose proof (span_app (delim relaxed) x1) as Happ. pose proof (span_all (delim relaxed) x1) as Hall.
-  pose proof (span_stop (delim relaxed) x1) as Hstop.
-  destruct (span (delim relaxed) x1) as [ds rest]. cbn [fst snd] in *.
-  destruct (skip_delimiter relaxed (lenN ds)) eqn:SD; intros H; inversion H; subst s1 t1.
-  apply tok_prefix_sound in P. destruct P as (Hb & Hne & Hm & Hlen & _).
-  exists m, ds. split; [rewrite Happ; symmetry; exact Hb|].
-  split; [repeat split; assumption|]. split; [|split; [reflexivity|exact Hstop]].
-  unfold skip_delimiter in SD.
-  destruct (lenN ds =? 0) eqn:E0; [discriminate|].
-  split; [intros C; rewrite C in E0; cbn in E0; discriminate|]. split; [exact Hall|].
-  intros ->. cbn [negb andb] in SD. rewrite Bool.andb_true_r in SD.
-  destruct (1 <? lenN ds) eqn:E1; [discriminate|]. lia.
-Qed.
-
-Lemma skip_trailing_crs_sound relaxed s t s2 t2 :
-  skip_trailing_crs relaxed s t = (s2, Some t2) -> s2 = s /\ exists crs, t = t2 ++ crs /\ crs_ok relaxed crs.
-Proof.
-  unfold skip_trailing_crs. destruct relaxed.
-  - rewrite tok_skipAllTrailing_spec. cbn [snd]. intros H; inversion H; subst. split; [reflexivity|].
-    exists (tail_run cs_CR t). split; [symmetry; apply tail_split|]. split; [apply tail_run_all|discriminate].
-  - destruct (tok_skipOneTrailing cs_CR t) as [ok t1] eqn:E. destruct ok; intros H; inversion H; subst.
-    split; [reflexivity|]. apply tok_skipOneTrailing_sound in E. destruct E as (c & Ht & Hc).
-    exists [c]. split; [exact Ht|]. split; [cbn [forallb]; rewrite Hc; reflexivity|reflexivity].
-Qed.
-
-Lemma version_suffix_sound t majorD minorD td :
-  version_suffix t = Some (majorD, minorD, td) ->
-  t = td ++ http_slash ++ majorD ++ [46] ++ minorD /\
-  majorD <> [] /\ minorD <> [] /\ forallb cs_DIGIT majorD = true /\ forallb cs_DIGIT minorD = true.
-Proof.
-  unfold version_suffix.
-  destruct (tok_suffix cs_DIGIT npos t) as [[mi ta]|] eqn:S1; [|discriminate].
-  destruct (tok_skipOneTrailing period ta) as [okp tb] eqn:S2. destruct okp; [|discriminate].
-  destruct (tok_suffix cs_DIGIT npos tb) as [[ma tc]|] eqn:S3; [|discriminate].
-  destruct (tok_skipSuffix http_slash tc) as [okh td'] eqn:S4. destruct okh; [|discriminate].
-  intros H; inversion H; subst ma mi td'.
-  apply tok_suffix_sound in S1. destruct S1 as (H1 & N1 & D1 & _).
-  apply tok_skipOneTrailing_sound in S2. destruct S2 as (c & H2 & Hc).
-  apply tok_suffix_sound in S3. destruct S3 as (H3 & N3 & D3 & _).
-  apply tok_skipSuffix_sound in S4.
-  unfold period in Hc. apply N.eqb_eq in Hc. subst c.
-  split; [|auto]. rewrite <- H1, H2, <- H3, S4. rewrite <- !app_assoc. reflexivity.
-Qed.
-
-Lemma digit_49 : cs_DIGIT 49 = true /\ cs_DIGIT 48 = true.
-Proof. split; vm_compute; reflexivity. Qed.
-
-Lemma parse_version_sound s t s3 t3 :
-  parse_version s t = (s3, Some t3) -> r_major s3 <> 0 ->
-  exists d1 d2, t = t3 ++ http_slash ++ [d1; 46; d2] /\ cs_DIGIT d1 = true /\ cs_DIGIT d2 = true /\
-                s3 = set_proto s (d1 - 48) (d2 - 48).
-Proof.
-  unfold parse_version.
-  destruct (tok_skipSuffix http1p1 t) as [ok11 t11] eqn:S11. destruct ok11.
-  { intros H _; inversion H; subst. apply tok_skipSuffix_sound in S11.
-    exists 49, 49. destruct digit_49 as [D _]. repeat split; try exact D. exact S11. }
-  destruct (tok_skipSuffix http1p0 t) as [ok10 t10] eqn:S10. destruct ok10.
-  { intros H _; inversion H; subst. apply tok_skipSuffix_sound in S10.
-    exists 49, 48. destruct digit_49 as [D D0]. repeat split; try assumption. }
-  destruct (version_suffix t) as [[[majorD minorD] td]|] eqn:VS.
-  - intros H Hmaj; inversion H; subst s3 t3. cbn [r_major set_proto] in Hmaj.
-    apply version_suffix_sound in VS. destruct VS as (Ht & Nma & Nmi & Dma & Dmi).
-    destruct ((1 <? lenN majorD) || (1 <? lenN minorD)) eqn:Multi; [congruence|].
-    apply Bool.orb_false_elim in Multi. destruct Multi as [M1 M2].
-    destruct (singleton_of_len majorD Nma M1) as [d1 ->]. destruct (singleton_of_len minorD Nmi M2) as [d2 ->].
-    exists d1, d2. cbn [forallb] in Dma, Dmi. rewrite Bool.andb_true_r in Dma, Dmi.
-    split; [exact Ht|]. split; [exact Dma|]. split; [exact Dmi|reflexivity].
-  - destruct (r_mid s =? req_m_get); intros H Hmaj; inversion H; subst. cbn [r_major set_proto] in Hmaj. congruence.
-Qed.
-
-Lemma trailing_delims_sound relaxed t3 cnt t4 :
-  tok_skipAllTrailing (delim relaxed) t3 = (cnt, t4) -> skip_delimiter relaxed cnt = true ->
-  exists ds2, t3 = t4 ++ ds2 /\ delims_ok relaxed ds2.
-Proof.
-  rewrite tok_skipAllTrailing_spec. intros H SD; inversion H; subst cnt t4.
-  exists (tail_run (delim relaxed) t3). split; [symmetry; apply tail_split|].
-  unfold skip_delimiter in SD.
-  destruct (lenN (tail_run (delim relaxed) t3) =? 0) eqn:E0; [discriminate|].
-  split; [intros C; rewrite C in E0; cbn in E0; discriminate|]. split; [apply tail_run_all|].
-  intros ->. cbn [negb] in SD. rewrite Bool.andb_true_r in SD.
-  destruct (1 <? lenN (tail_run (delim false) t3)) eqn:E1; [discriminate|]. lia.
-Qed.
-
-Lemma parse_uri_sound relaxed s t s5 :
-  parse_uri relaxed s t = (s5, Some []) -> fits t -> target_ok relaxed t /\ s5 = set_uri s t.
-Proof.
-  unfold parse_uri. intros H Hf.
-  destruct (tok_prefix (target_chars relaxed) npos t) as [[u t1]|] eqn:P; [|inversion H].
-  destruct (req_max_uri <? lenN u) eqn:L; inversion H; subst s5 t1.
-  apply tok_prefix_sound in P. destruct P as (Hb & Hne & Hall & _). rewrite app_nil_r in Hb. subst u.
-  split; [|reflexivity]. repeat split; try assumption. lia.
-Qed.
-
-(* what an accepted HTTP/1+ request line looks like, both modes:
-   line = method delims target delims "HTTP/" DIGIT "." DIGIT CRs  (line = the bytes before the LF) *)
-Definition request_line_shape (relaxed : bool) (line m t : bytes) (d1 d2 : N) : Prop :=
-  exists ds1 ds2 crs,
-    line = m ++ ds1 ++ t ++ ds2 ++ http_slash ++ [d1; 46; d2] ++ crs /\
-    method_ok m /\ delims_ok relaxed ds1 /\ target_ok relaxed t /\ delims_ok relaxed ds2 /\
-    cs_DIGIT d1 = true /\ cs_DIGIT d2 = true /\ crs_ok relaxed crs.
-
-Theorem parse_line_sound_1x relaxed s line s' : fits line ->
-  parse_line relaxed s line = (s', true) -> r_major s' <> 0 ->
-  exists m t d1 d2,
-    request_line_shape relaxed line m t d1 d2 /\
-    (r_mid s', r_mimg s') = method_of relaxed m /\ r_uri s' = t /\
-    r_http s' = true /\ r_major s' = d1 - 48 /\ r_minor s' = d2 - 48.
-Proof.
-  intros Hf. unfold parse_line.
-  destruct (parse_method relaxed s line) as [s1 [t1|]] eqn:PM; [|intros H; inversion H].
-  destruct (skip_trailing_crs relaxed s1 t1) as [s2 [t2|]] eqn:TC; [|intros H; inversion H].
-  destruct (parse_version s2 t2) as [s3 [t3|]] eqn:PV; [|intros H; inversion H].
-  destruct (r_major s3 =? 0) eqn:M0.
-  - (* HTTP/0.x: excluded by the hypothesis *)
-    destruct (parse_uri relaxed s3 t3) as [s5 [t5|]] eqn:PU; [|intros H; inversion H].
-    destruct t5; intros H; inversion H; subst s'. intros Hmaj. exfalso. apply Hmaj.
-    unfold parse_uri in PU. destruct (tok_prefix (target_chars relaxed) npos t3) as [[u tt]|]; [|inversion PU].
-    destruct (req_max_uri <? lenN u); inversion PU; subst. cbn. lia.
-  - destruct (tok_skipAllTrailing (delim relaxed) t3) as [cnt t4] eqn:TD.
-    destruct (skip_delimiter relaxed cnt) eqn:SD; [|intros H; inversion H].
-    destruct (parse_uri relaxed s3 t4) as [s5 [t5|]] eqn:PU; [|intros H; inversion H].
-    destruct t5; intros H; inversion H; subst s'. intros Hmaj.
-    apply parse_method_sound in PM. destruct PM as (m & ds1 & Hline & Hm & Hds1 & Hs1 & _).
-    apply skip_trailing_crs_sound in TC. destruct TC as (Hs2 & crs & Ht1 & Hcrs). subst s2.
-    assert (Hmaj3 : r_major s3 <> 0) by lia.
-    apply parse_version_sound in PV; [|exact Hmaj3]. destruct PV as (d1 & d2 & Ht2 & Hd1 & Hd2 & Hs3).
-    destruct (trailing_delims_sound relaxed t3 cnt t4 TD SD) as (ds2 & Ht3 & Hds2).
-    assert (Hf4 : fits t4).
-    { unfold fits in *. rewrite Hline, Ht1, Ht2, Ht3 in Hf. rewrite !lenN_app in Hf. lia. }
-    apply parse_uri_sound in PU; [|exact Hf4]. destruct PU as (Ht4 & Hs5).
-    exists m, t4, d1, d2. split.
-    + exists ds1, ds2, crs. split; [|tauto].
-      rewrite Hline, Ht1, Ht2, Ht3. rewrite <- !app_assoc. reflexivity.
-    + subst s5 s3 s1. cbn. destruct (method_of relaxed m). repeat split; reflexivity.
-Qed.
